@@ -34,42 +34,14 @@ def bcast_terms(rng, n):
     return terms, meta
 
 def correspondence(rng, tier):
-    n = 400 if tier == 'quick' else 15000
-    progs = []; terms = []; dist = {'mode': {}, 'ops': {}, 'rank': {}, 'outcome': {}}
-    notes = {'broadcast': 0, 'stale_read': 0, 'read_after_broadcast': 0, 'exn': 0, 'steps': 0, 'cells': 0,
-             'noncontiguous_operand': 0, 'raising_broadcast': 0, 'read_after_raise': 0}
-    ambiguous = 0; distinct = set()
-    while len(progs) < n:
-        mode = 'sym' if rng.random() < 0.5 else 'real'
-        r = gen_and_run(rng, mode)
-        if r is None:
-            ambiguous += 1; continue
-        prog, impl = r
-        progs.append(prog); terms.append(coq_case(prog, impl))
-        dist['mode'][mode] = dist['mode'].get(mode, 0) + 1
-        for op in prog['ops']:
-            k = op['op'] + ('' if 'f' not in op else ':%d' % op['f'])
-            dist['ops'][k] = dist['ops'].get(k, 0) + 1
-            if op['op'] == 'new': dist['rank'][str(len(op['shape']))] = dist['rank'].get(str(len(op['shape'])), 0) + 1
-        for x, _ in impl.expected:
-            dist['outcome'][x[0] if x[0] != 'XExn' else x[1]] = dist['outcome'].get(x[0] if x[0] != 'XExn' else x[1], 0) + 1
-        for k in notes: notes[k] += impl.notes[k]
-        if (impl.notes['broadcast'] and impl.notes['read_after_broadcast']) or impl.notes['noncontiguous_operand'] or impl.notes['read_after_raise']:
-            distinct.add(json.dumps([[o['op'], o.get('f')] for o in prog['ops']] + [o['shape'] for o in prog['ops'] if o['op'] == 'new']))
+    n = 400 if tier == 'quick' else 12000
     bterms, bmeta = bcast_terms(rng, 200 if tier == 'quick' else 4000)
-    values, errors = coq_eval_cases('C16', HEADER, terms + bterms, per_file=40 if tier == 'quick' else 200)
-    mism = []
-    for e in errors:
-        mism.append({'kind': 'coq-error', 'detail': e})
-    for i, v in enumerate(values):
-        if v is None or v == -1: continue
-        if i < len(progs):
-            mism.append({'kind': 'array-program', 'first_differing_step': v, 'program': progs[i]})
-        else:
-            mism.append({'kind': 'broadcast-rule', 'shapes': bmeta[i - len(progs)], 'code': v})
-    dist['notes'] = notes; dist['ambiguous_discarded'] = ambiguous
-    return {'programs': len(progs) + len(bterms), 'steps': notes['steps'], 'mismatches': mism, 'distinct': len(distinct),
-            'distribution': dist,
+    r = array_correspondence(rng, n, 'C16', profile='general', extra_terms=bterms, extra_meta=bmeta, per_file=40 if tier == 'quick' else 200)
+    q = result_correspondence(rng, tier, 'C16res')          # result()-centred histories (shared with C06)
+    for k in ('programs', 'steps', 'distinct'): r[k] += q[k]
+    r['mismatches'] += q['mismatches']
+    r['distribution']['result_centred'] = q['distribution']
+    r.update({
             'rule': 'random histories of 6-14 operations on 2-4 shared array objects (rank 0-3, dims 0-4, <= 24 elements, '
                     'size-1 axes, incompatible shapes, scalars, plain ndarrays/lists); half with symbolic tracer elements, '
                     'half with ureal/ucomplex/float/int/complex elements; 10% of the steps make a NumPy view or re-laid-out copy '
@@ -77,8 +49,9 @@ def correspondence(rng, tier):
                     '30% of the arrays hold an element on which scalar operations raise or branch (None, 0, negative, nan, inf); the generator returns to '
                     'objects whose dispatched ufunc raised, to views, and to dispatchers of broadcasting ufuncs; non-trivial = a read of '
                     'the dispatcher after a broadcasting op, or an operation on a non-C-contiguous operand, or an operation on an object '
-                    'whose dispatched binary ufunc raised; plus direct NumPy-vs-model broadcasting cases',
-            'samples': progs[:2]}
+                    'whose dispatched binary ufunc raised; 60% of the plain-ndarray operands are sequences of pure numbers of mixed kinds (bool, int, huge int, float, complex, numpy scalars) passed as nested list / tuple / range; plus direct NumPy-vs-model broadcasting cases; plus result()-centred histories: ' + q['rule'],
+    })
+    return r
 
 
 # ------------------------------------------------------------------------- property oracle (search only)
@@ -89,6 +62,8 @@ def _ideal(op, heap, scalars, labels):
     def opd(o):
         if o[0] == 'A':
             a = heap[o[1]]; return np.shape(a), cells_of(a)
+        if op['op'] == 'zip':        # sensitivity / u_component hand np.asarray(scalar) to the elements (np.float64(2.5) for 2.5)
+            return (), list(np.asarray(scalars[o[1]]).flat)
         return (), [scalars[o[1]]]
     def lift2(code, x, y, kind):
         (sx, cx), (sy, cy) = opd(x), opd(y)
@@ -152,6 +127,11 @@ def check_program(prog, ctx=16, known_hits=None):
             want = None if op['op'] == 'new' else _ideal(op, heap, impl.scalars, labels)
             n0 = len(heap)
             arrays.do(impl, op)
+        if impl.result_failures:
+            f = impl.result_failures[0]
+            return {'step': step, 'op': op, 'expected': 'element %d of result(array): %s' % (f['index'], 'a new declared intermediate equal to the operand element / the unchanged object'),
+                    'observed': f['what'], 'known_class': None,
+                    'program': {'mode': prog['mode'], 'scalars': prog['scalars'], 'ops': prog['ops'][:step + 1]}}
         got_raw = impl.expected[-1][0]
         # observed, as fingerprints
         if got_raw[0] == 'XExn': got = ('exn', got_raw[1])
@@ -201,7 +181,7 @@ def search(rng, tier, broken):
         if r is not None: return {'tried': tried, 'failing': _jsonable(r), 'known_classes_seen': known_hits}
     n = 300 if tier == 'quick' else 3000
     for _ in range(n):
-        g = gen_and_run(rng, 'sym' if rng.random() < 0.5 else 'real')
+        g = gen_and_run(rng, 'sym' if rng.random() < 0.5 else 'real', profile='result' if rng.random() < 0.3 else 'general')
         if g is None: continue
         r = examine(g[0])
         if r is not None: return {'tried': tried, 'failing': _jsonable(r), 'known_classes_seen': known_hits}
